@@ -122,7 +122,8 @@ HereDocs ==
      [c |-> 1, op |-> "<<",  w |-> "\\E",    wm |-> <<"bs:E">>, body |-> "$v\n", bm |-> <<"lit:$v\n">>, dl |-> "E", dm |-> "lit:E"],
      [c |-> 1, op |-> "<<",  w |-> "E\"O\"F", wm |-> <<"lit:E", "dq[", "lit:O", "]dq", "lit:F">>, body |-> "$v\n", bm |-> <<"lit:$v\n">>, dl |-> "EOF", dm |-> "lit:EOF"],
      [c |-> 1, op |-> "<<-", w |-> "E",      wm |-> <<"lit:E">>, body |-> "\tx\n", bm |-> <<"lit:\tx\n">>, dl |-> "\tE", dm |-> "lit:\tE"],
-     [c |-> 1, op |-> "<<-", w |-> "E",      wm |-> <<"lit:E">>, body |-> "x\n",   bm |-> <<"lit:x\n">>,   dl |-> "E",   dm |-> "lit:E"] >>
+     [c |-> 1, op |-> "<<-", w |-> "E",      wm |-> <<"lit:E">>, body |-> "x\n",   bm |-> <<"lit:x\n">>,   dl |-> "E",   dm |-> "lit:E"],
+     [c |-> 1, op |-> "<<-", w |-> "'E'",    wm |-> <<"sq[", "lit:E", "]sq">>, body |-> "\t\t$v\n\tE \n", bm |-> <<"lit:\t\t$v\n\tE \n">>, dl |-> "\t\tE", dm |-> "lit:\t\tE"] >>
 
 HereAlt(h, n) ==  \* n: "" or an IO number
     A(h.c, <<M("r[")>> \o (IF n = "" THEN <<T(h.op)>> ELSE <<T(n), M("n:" \o n), TA(h.op)>>)
@@ -153,6 +154,36 @@ Alts(nt) ==
          << A(0, <<M("ln["), NT("list", 0, TRUE, FALSE, FALSE, ""),  M("]ln"), NLF>>),
             A(1, <<M("ln["), NT("list", 0, TRUE, FALSE, FALSE, ";"), M("]ln"), NLF>>),
             A(1, <<M("ln["), NT("list", 0, TRUE, FALSE, FALSE, "&"), M("]ln"), NLF>>) >>
+    \* ---------------------------------------------------------- here-document focus (C08)
+    [] nt.n = "hd0" -> [i \in 1..Len(HereDocs) |-> [HereAlt(HereDocs[i], "") EXCEPT !.c = 0]]
+                       \o << [HereAlt(HereDocs[5], "4") EXCEPT !.c = 0] >>
+    [] nt.n = "hdprog" ->   \* commands carrying 1-3 here-documents at every kind of redirection site
+         LET H    == NT("hd0", 1, FALSE, FALSE, FALSE, "")
+             Cat  == <<M("c["), M("simple["), T("cat")>> \o WLit("cat") \o <<M("]simple")>>
+             CatA == <<M("c["), M("simple["), TA("cat")>> \o WLit("cat") \o <<M("]simple")>>
+             Cmd(hs) == <<M("ao["), M("pl[")>> \o Cat \o hs \o <<M("]c"), M("]pl"), M("]ao")>>
+             Simple  == <<M("ao["), M("pl["), M("c["), M("simple["), T("a")>> \o WLit("a") \o <<M("]simple"), M("]c"), M("]pl")>>
+         IN
+         << A(0, <<M("ln[")>> \o Cmd(<<H>>) \o <<M("]ln"), NLF>>),
+            A(1, <<M("ln[")>> \o Cmd(<<H, H>>) \o <<M("]ln"), NLF>>),
+            A(1, <<M("ln[")>> \o Cmd(<<H, H, H>>) \o <<M("]ln"), NLF>>),
+            \* pipeline, and-or list, ;-list
+            A(1, <<M("ln["), M("ao["), M("pl[")>> \o Cat \o <<H, M("]c"), TL("|"), M("op:|")>> \o Cat \o <<H, M("]c"), M("]pl"), M("]ao"), M("]ln"), NLF>>),
+            A(1, <<M("ln["), M("ao["), M("pl[")>> \o Cat \o <<H, M("]c"), M("]pl"), TL("&&"), M("op:&&"), M("pl[")>> \o Cat \o <<H, M("]c"), M("]pl"), M("]ao"), M("]ln"), NLF>>),
+            A(1, <<M("ln["), M("ao["), M("pl[")>> \o Cat \o <<H, M("]c"), M("]pl"), T(";"), M("sep:;"), M("]ao")>> \o Cmd(<<H>>) \o <<M("]ln"), NLF>>),
+            \* linebreak newline between the two commands: the first body precedes the second command
+            A(1, <<M("ln["), M("ao["), M("pl[")>> \o Cat \o <<H, M("]c"), TL("|"), M("op:|"), NLB>> \o Cat \o <<H, M("]c"), M("]pl"), M("]ao"), M("]ln"), NLF>>),
+            \* on a compound command, and inside one (single-line and multi-line)
+            A(1, <<M("ln["), M("ao["), M("pl["), M("c["), TL("{"), M("grp["), M("ln["), M("ao["), M("pl[")>> \o Cat \o <<H, M("]c"), M("]pl"), TS(";"), M("sep:;"), M("]ao"), M("]ln")>>
+                   \o <<T("}"), M("]grp"), H, M("]c"), M("]pl"), M("]ao"), M("]ln"), NLF>>),
+            A(1, <<M("ln["), M("ao["), M("pl["), M("c["), TL("if"), M("if["), M("cond["), M("ln[")>> \o Cmd(<<H>>) \o <<M("]ln"), NL, M("]cond"),
+                   TL("then"), M("then["), M("ln[")>> \o Cmd(<<H>>) \o <<M("]ln"), NL, M("]then"), T("fi"), M("]if"), H, M("]c"), M("]pl"), M("]ao"), M("]ln"), NLF>>),
+            A(1, <<M("ln["), M("ao["), M("pl["), M("c["), TL("while"), M("while["), M("cond["), M("ln["), M("ao["), M("pl[")>> \o Cat \o <<H, M("]c"), M("]pl"), TS(";"), M("sep:;"), M("]ao"), M("]ln"), M("]cond"),
+                   TL("do"), M("do["), M("ln["), M("ao["), M("pl[")>> \o Cat \o <<H, M("]c"), M("]pl"), TS(";"), M("sep:;"), M("]ao"), M("]ln"), M("]do"), T("done"), M("]while"), M("]c"), M("]pl"), M("]ao"), M("]ln"), NLF>>),
+            A(1, <<M("ln["), M("ao["), M("pl["), M("c["), TL("("), M("sub["), M("ln[")>> \o Cmd(<<H>>) \o <<M("]ln"), NL, M("ln[")>> \o Cmd(<<H>>) \o <<M("]ln"), NL, T(")"), M("]sub"), M("]c"), M("]pl"), M("]ao"), M("]ln"), NLF>>),
+            \* inside a command substitution, followed by one outside
+            A(1, <<M("ln["), M("ao["), M("pl["), M("c["), M("simple["), T("a")>> \o WLit("a") \o <<M("w["), T("$("), M("cs$["), M("ln["), M("ao["), M("pl[")>> \o CatA
+                   \o <<H, M("]c"), M("]pl"), M("]ao"), M("]ln"), NL, T(")"), M("]cs"), M("]w"), M("]simple"), H, M("]c"), M("]pl"), M("]ao"), M("]ln"), NLF>>) >>
     [] nt.n = "list" ->   \* and-or lists joined by ; or &; the last one carries nt.end
          << A(0, <<SameE(nt, "ao", nt.end)>>),
             A(1, <<SameE(nt, "ao", ";"), SameE(nt, "list", nt.end)>>),
